@@ -1911,7 +1911,15 @@ impl Analyzable for Expression
 							location,
 						},
 					},
-					Some(Err(poison)) => Expression::Poison(poison),
+					Some(Err(Poison::Error(error))) =>
+					{
+						Expression::Poison(Poison::Error(error))
+					}
+					// The error has been reported elsewhere, e.g. in the base.
+					Some(Err(Poison::Poisoned)) => Expression::LengthOfArray {
+						reference,
+						location,
+					},
 					None => Expression::LengthOfArray {
 						reference,
 						location,
